@@ -10,6 +10,8 @@
     U <id> <b> <e> <clear> <own> | <vb> <ve> <segs> <fb> <fe> <ownret>
     Q <id> <t,t,...> | <bits>
     K <b> <e> <ranges> | <segs>
+    A <id> <now> <own> | <vb> <ve> <segs> <fb> <fe> <ownret>           (real Start: replayed as U <id> now now+86400 1)
+    T <now> <owns> | <fired> <order> {<id> <active> <vb> <ve> <segs> <fb> <fe> <ownret>}*
     X ...                                  (operation the harness could not execute: skipped)
   Output lines:
     MISMATCH line=<n> case=<k> what=<observable> impl=<...> model=<...>      (segment lists are compared in canonical form)
@@ -41,6 +43,9 @@ structure PDef where
   model : Period := {}
   impl : Period := {}
   last : Option UpdObs := none
+  lastTick : Option TickObs := none
+  refWin : List (Nat × Option Int × Option Int) := []   -- windows of the referenced periods when they were last merged
+  active : Bool := false
 
 structure DSt where
   tz : Tz := []
@@ -57,6 +62,15 @@ structure DSt where
   reprDiffers : Nat := 0     -- updates where model and implementation store the same set as different lists
   strideDst : Nat := 0       -- calendar evaluations in which a stride > 1 is counted across a UTC-offset change
   noops : Nat := 0
+  starts : Nat := 0          -- real TimePeriod::Start calls
+  ticks : Nat := 0           -- runs of the real UpdateTimerHandler
+  ticksNotFired : Nat := 0
+  tickUpdates : Nat := 0     -- (period, timer run) pairs replayed
+  tickNoops : Nat := 0
+  tickPurged : Nat := 0      -- ... in which PurgeSegments dropped a segment
+  refsChecked : Nat := 0      -- IsInside answers compared with the current answers of the referenced periods
+  refsStale : Nat := 0        -- ... disagreements where a referenced period's window did not contain the instant when it was merged
+  tickStale : Nat := 0       -- ... in which a referenced period had not been purged/updated yet (iterated later)
   nonClear : Nat := 0
   withInc : Nat := 0
   withExc : Nat := 0
@@ -119,9 +133,32 @@ def bumpForm (forms : List (String × Nat)) (k : String) : List (String × Nat) 
   | some _ => forms.map fun p => if p.1 == k then (p.1, p.2 + 1) else p
   | none => forms ++ [(k, 1)]
 
+def refWindows (d : DSt) (p : PDef) : List (Nat × Option Int × Option Int) :=
+  (p.incs ++ p.excs).map fun j => match findP d j with
+    | some q => (j, q.impl.vb, q.impl.ve)
+    | none => (j, none, none)
+
+/-- The current answers of the referenced periods at `t`; `none` when `t` is outside the window of one of them. -/
+def refAnswers (d : DSt) (ids : List Nat) (t : Int) : Option (List Bool) :=
+  (ids.filterMap (findP d)).mapM fun q =>
+    match q.impl.vb, q.impl.ve with
+    | some vb, some ve => if vb ≤ t ∧ t ≤ ve then some (q.impl.isInside t) else none
+    | _, _ => none
+
+def subsets : List Nat → List (List Nat)
+  | [] => [[]]
+  | x :: xs => let r := subsets xs; r ++ r.map (x :: ·)
+
 def handle (d : DSt) (n : Nat) (line : String) : IO DSt := do
   let ws := words line
   let d := if ws.head? == some "C" || ws.head? == some "Z" then d else { d with caseHash := mixStr d.caseHash ((line.splitOn " | ").headD "") }
+  -- `A id now own | obs`: the real Start, i.e. UpdateRegion(now, now + 24 h, clearing)
+  let (ws, activated) : List String × Bool := match ws with
+    | "A" :: id :: now :: own :: rest =>
+      match now.toInt? with
+      | some t => ("U" :: id :: now :: toString (t + 86400) :: "1" :: own :: rest, true)
+      | none => (ws, false)
+    | _ => (ws, false)
   match ws with
   | [] => return d
   | "X" :: _ => return d
@@ -235,7 +272,9 @@ def handle (d : DSt) (n : Nat) (line : String) : IO DSt := do
           d := { d with caseNontrivial := true }
         -- always continue from the implementation's observed state: every step of the model is then compared on its
         -- own, a harmless difference of representation cannot pile up, and a divergence is reported once
-        return setP d { p with model := iobs, impl := iobs, last := some o }
+        if activated then d := { d with starts := d.starts + 1 }
+        return setP d { p with model := iobs, impl := iobs, last := some o, lastTick := none, active := p.active || activated,
+                               refWin := if noop then p.refWin else refWindows d p }
     | _, _, _, _, _, _, _, _, _, _ => IO.println s!"BADLINE line={n}"; return d
   | ["Q", id, ts, "|", bits] =>
     match id.toNat?, parseInts? ts with
@@ -247,6 +286,7 @@ def handle (d : DSt) (n : Nat) (line : String) : IO DSt := do
         if bs.length != ts.length then IO.println s!"BADLINE line={n}"; return d
         let mut d := d
         let mut reported := false
+        let mut reportedRefs := false
         for (t, r) in ts.zip bs do
           d := { d with queries := d.queries + 1 }
           let mr := p.model.isInside t
@@ -255,6 +295,42 @@ def handle (d : DSt) (n : Nat) (line : String) : IO DSt := do
               IO.println s!"MISMATCH line={n} case={d.caseNo} what=is-inside t={t} impl={showBool r} model={showBool mr}"
               reported := true
             d := { d with mismatches := d.mismatches + 1, caseMismatch := true }
+          match p.lastTick with
+          | none => pure ()
+          | some k =>
+            let outside := match k.upd.vb, k.upd.ve with
+              | some vb, some ve => decide (t < vb) || decide (t > ve)
+              | _, _ => true
+            d := if outside then { d with outsideWindow := d.outsideWindow + 1 }
+                 else if r then { d with insideYes := d.insideYes + 1 } else { d with insideNo := d.insideNo + 1 }
+            match specTick { k with upd := { k.upd with queries := [(t, r)] } } with
+            | none => pure ()
+            | some c =>
+              if !reported then
+                IO.println s!"SPECFAIL line={n} case={d.caseNo} clause={c.name} t={t} impl={showBool r} expected={showBool (expectTick k t)} corr_ok={showBool !d.caseMismatch}"
+                reported := true
+              d := { d with specfails := d.specfails + 1 }
+          -- agreement with the referenced periods' own current answers (production shape: calendar periods only)
+          let oo : Option UpdObs := match p.lastTick with | some k => some k.upd | none => p.last
+          let allLegacy := p.ranges.isSome && !(p.incs ++ p.excs).isEmpty &&
+            ((p.incs ++ p.excs).filterMap (findP d)).all (·.ranges.isSome)
+          let purgedPast := match p.lastTick with | some k => decide (t < k.cutoff) | none => false
+          match oo, allLegacy && !purgedPast, refAnswers d p.incs t, refAnswers d p.excs t with
+          | some o, true, some incNow, some excNow =>
+            d := { d with refsChecked := d.refsChecked + 1 }
+            match specRefs o incNow excNow (t, r) with
+            | none => pure ()
+            | some c =>
+              let stale := (p.incs ++ p.excs).any fun j => match p.refWin.find? (·.1 == j) with
+                -- the segments a period has materialised speak about [valid_begin, valid_end): at valid_end itself nothing is computed
+                | some (_, some vb, some ve) => decide (t < vb) || decide (t ≥ ve)
+                | _ => (findP d j).isSome
+              if stale then d := { d with refsStale := d.refsStale + 1 }
+              if !reportedRefs then
+                IO.println s!"SPECFAIL line={n} case={d.caseNo} clause={c.name} t={t} impl={showBool r} expected={showBool (expectWithRefs o (incNow.any (fun x => x)) (excNow.any (fun x => x)) t)} stale_reference={showBool stale} corr_ok={showBool !d.caseMismatch}"
+                reportedRefs := true
+              d := { d with specfails := d.specfails + 1 }
+          | _, _, _, _ => pure ()
           match p.last with
           | none => pure ()
           | some o =>
@@ -272,6 +348,115 @@ def handle (d : DSt) (n : Nat) (line : String) : IO DSt := do
                 reported := true
               d := { d with specfails := d.specfails + 1 }
         return d
+    | _, _ => IO.println s!"BADLINE line={n}"; return d
+  | "T" :: now :: owns :: "|" :: fired :: order :: rest =>
+    match now.toInt?, parseNats? order with
+    | some now, some order =>
+      let mut d := { d with ticks := d.ticks + 1 }
+      if fired != "1" then
+        return { d with ticksNotFired := d.ticksNotFired + 1 }
+      -- what the native update functions were told to return
+      let ownOf (id : Nat) : List Seg :=
+        match (splitOnChar owns ';').filterMap (fun ent => match ent.splitOn "=" with
+            | [i, sg] => if i.toNat? == some id then parseSegs? sg else none
+            | _ => none) with
+        | o :: _ => o
+        | [] => []
+      -- observed states: groups of 8 words
+      let rec groups (l : List String) (fuel : Nat) : List (List String) :=
+        match fuel, l with
+        | fuel + 1, a :: b :: c :: e :: f :: g :: h :: i :: tl => [a, b, c, e, f, g, h, i] :: groups tl fuel
+        | _, _ => []
+      let gs := groups rest rest.length
+      let c := now - 3600
+      let e := now + 86400
+      let preTick := d.ps
+      -- periods whose update function was not asked: when the handler got to them cannot be observed
+      let notAsked : List Nat := gs.filterMap fun g => match g with
+        | [i, _, _, _, _, fb, _, _] => if fb == "-" then i.toNat? else none
+        | _ => none
+      -- the handler's loop, in the iteration order the implementation reported
+      for id in order do
+        match findP d id, gs.find? (fun g => g.head? == some (toString id)) with
+        | some p, some [_, act, vb, ve, segs, fb, fe, oret] =>
+          if act != "1" || !p.active then continue
+          match parseOptInt? vb, parseOptInt? ve, parseSegs? segs, parseOptInt? fb, parseOptInt? fe with
+          | some ivb, some ive, some isegs, some ifb, some ife =>
+            d := { d with tickUpdates := d.tickUpdates + 1 }
+            let ownRet? : Option (List Seg) := if oret == "-" && ifb.isNone then none else parseSegs? oret
+            let noop := decide (e < numOf p.model.ve)
+            let mb := numOf p.model.ve
+            let mown : List Seg := match p.ranges with
+              | none => ownOf id
+              | some rg =>
+                match ifb, ife with
+                | some fb, some fe => (scriptFunc d.tz rg fb fe).getD []
+                | _, _ => (scriptFunc d.tz rg mb e).getD []
+            let lookup (ids : List Nat) : List (List Seg) :=
+              ids.filterMap fun j => (findP d j).map fun q => q.impl.segs
+            let stale := (p.incs ++ p.excs).any fun j => match findP d j with
+              | some q => q.active && !(order.takeWhile (· != id)).contains j && (q.impl.segs.any fun s => decide (s.2 < c))
+              | none => false
+            -- Allowed set: a referenced period whose update function was not asked in this run was merged either as it
+            -- was before the run or as it is after it (purged), depending on an iteration order that cannot be observed.
+            let amb := ((p.incs ++ p.excs).filter fun j => notAsked.contains j).eraseDups
+            let lookupV (pick ids : List Nat) : List (List Seg) :=
+              ids.filterMap fun j =>
+                if pick.contains j then (preTick.find? (·.id == j)).map (·.impl.segs) else (findP d j).map (·.impl.segs)
+            let variants : List Period := (subsets (amb.take 4)).map fun pick =>
+              p.model.tick { prefer := p.prefer, own := mown, incs := lookupV pick p.incs, excs := lookupV pick p.excs } now
+            let m' := variants.headD p.model
+            let iobs : Period := { segs := isegs, vb := ivb, ve := ive }
+            let mut bad := false
+            -- only the answers from the cut-off on are constrained after a timer run: the stored set is compared from the
+            -- cut-off on, the window's begin only as far as it lies after the cut-off (how much past is kept is free)
+            let clip (S : List Seg) : List Seg := S.filterMap fun s => if s.2 ≤ c then none else some (if s.1 < c then c else s.1, s.2)
+            let lowB (v : Option Int) : Option Int := v.map fun x => if x < c then c else x
+            if !(variants.any fun v => canon (clip v.segs) == canon (clip isegs) && lowB v.vb == lowB ivb && v.ve == ive) then
+              IO.println s!"MISMATCH line={n} case={d.caseNo} what=timer-region period={id} impl={showOpt ivb},{showOpt ive},{showSegs (canon isegs)} model={showOpt m'.vb},{showOpt m'.ve},{showSegs (canon m'.segs)} witness={showOpt (firstDifference isegs m'.segs)}"
+              bad := true
+            let argsOk := noop || (match ifb, ife with
+              | some fb, some fe => decide (fb ≤ mb) && decide (e ≤ fe)
+              | _, _ => false)
+            if !argsOk then
+              IO.println s!"MISMATCH line={n} case={d.caseNo} what=timer-update-args period={id} impl={showOpt ifb},{showOpt ife} model={showOpt (some mb)},{showOpt (some e)}"
+              bad := true
+            match ownRet?, noop with
+            | some o, false =>
+              if canon o != canon mown then
+                IO.println s!"MISMATCH line={n} case={d.caseNo} what=own-segments period={id} impl={showSegs (canon o)} model={showSegs (canon mown)} witness={showOpt (firstDifference o mown)}"
+                bad := true
+            | _, _ => pure ()
+            if bad then d := { d with mismatches := d.mismatches + 1, caseMismatch := true }
+            -- specification on the implementation's observation
+            let iown := match ownRet? with | some o => o | none => ownOf id
+            let k : TickObs := { upd := { prefer := p.prefer, clear := false, b := numOf p.impl.ve, e := e, own := iown,
+                                          incs := lookup p.incs, excs := lookup p.excs, preSegs := p.impl.segs, preVe := p.impl.ve,
+                                          vb := ivb, ve := ive, postSegs := isegs, queries := [] },
+                                 cutoff := c, now := now, preVb := p.impl.vb }
+            match specTick k with
+            | some cl =>
+              IO.println s!"SPECFAIL line={n} case={d.caseNo} clause={cl.name} t=- impl=- expected=- corr_ok={showBool !d.caseMismatch}"
+              d := { d with specfails := d.specfails + 1 }
+            | none => pure ()
+            match p.ranges, ownRet?, ifb, ife with
+            | some rg, some o, some fb, some fe =>
+              d := { d with calSegs := d.calSegs + o.length }
+              match calSpec d.tz rg fb fe o with
+              | some (cn, t) =>
+                IO.println s!"SPECFAIL line={n} case={d.caseNo} clause={cn} t={t} impl=- expected=- corr_ok={showBool !d.caseMismatch}"
+                d := { d with specfails := d.specfails + 1 }
+              | none => d := { d with calChecked := d.calChecked + 1 }
+            | _, _, _, _ => pure ()
+            d := { d with tickNoops := d.tickNoops + (if noop then 1 else 0),
+                          tickPurged := d.tickPurged + (if p.impl.segs.any (fun s => decide (s.2 < c)) then 1 else 0),
+                          tickStale := d.tickStale + (if stale then 1 else 0),
+                          caseNontrivial := d.caseNontrivial || isegs != p.impl.segs }
+            d := setP d { p with model := iobs, impl := iobs, last := none, lastTick := some k,
+                                 refWin := if noop then p.refWin else refWindows d p }
+          | _, _, _, _, _ => IO.println s!"BADLINE line={n}"
+        | _, _ => pure ()
+      return d
     | _, _ => IO.println s!"BADLINE line={n}"; return d
   | ["K", b, e, rg, "|", segs] =>
     match b.toInt?, e.toInt?, parseRanges? rg with
@@ -304,4 +489,4 @@ def main : IO Unit := do
   let d ← foldLines stdin handle ({} : DSt)
   let d := closeCase d
   let forms := " ".intercalate (d.dayForms.map fun p => s!"form_{p.1}={p.2}")
-  IO.println s!"STATS cases={d.caseNo} updates={d.updates} queries={d.queries} scripts={d.scripts} cal_segments={d.calSegs} cal_checked={d.calChecked} tz_assumptions_checked={d.tzChecked} stride_across_offset_change={d.strideDst} noops={d.noops} non_clearing={d.nonClear} with_includes={d.withInc} with_excludes={d.withExc} cuts={d.splitN} shared_boundary_updates={d.sharedBoundary} inside_yes={d.insideYes} inside_no={d.insideNo} outside_window={d.outsideWindow} nontrivial={d.nontrivial} repr_differs={d.reprDiffers} args_differ={d.argsDiffer} mismatches={d.mismatches} specfails={d.specfails} {forms}"
+  IO.println s!"STATS cases={d.caseNo} updates={d.updates} queries={d.queries} scripts={d.scripts} cal_segments={d.calSegs} cal_checked={d.calChecked} tz_assumptions_checked={d.tzChecked} stride_across_offset_change={d.strideDst} noops={d.noops} starts={d.starts} timer_runs={d.ticks} timer_not_fired={d.ticksNotFired} timer_period_updates={d.tickUpdates} timer_noops={d.tickNoops} timer_purged={d.tickPurged} timer_stale_reference={d.tickStale} refs_checked={d.refsChecked} refs_stale_disagreements={d.refsStale} non_clearing={d.nonClear} with_includes={d.withInc} with_excludes={d.withExc} cuts={d.splitN} shared_boundary_updates={d.sharedBoundary} inside_yes={d.insideYes} inside_no={d.insideNo} outside_window={d.outsideWindow} nontrivial={d.nontrivial} repr_differs={d.reprDiffers} args_differ={d.argsDiffer} mismatches={d.mismatches} specfails={d.specfails} {forms}"
